@@ -54,6 +54,9 @@ func runHistory(r *ev.Run, id string, n int, distinct bool) {
 	reports := 0
 	report := func(sig, what string) {
 		reports++
+		if reports > 20 {
+			return
+		}
 		r.Violation(mapSig(sig, "history", n), fmt.Sprintf("[%s] %s (after %d ops)", cl.cfg(), what, len(rec.Ops)), rec)
 	}
 	c := sto.NewChecker(cl.s, "replica", sto.Caps{Receive: true, Remove: true}, universe, report)
